@@ -6,6 +6,7 @@ import (
 	"go/token"
 	"go/types"
 	"strings"
+	"time"
 
 	"golang.org/x/tools/go/ssa"
 )
@@ -69,10 +70,12 @@ func runC02(p *Program, r *Reporter) {
 	}
 	x.ioReader = tn.Type().Underlying().(*types.Interface)
 	x.maxBlob = c02ConstInt(p, "pkg/blobserver", "MaxBlobSize")
+	t0 := time.Now()
 	c02RuleCore(x)
 	c02RuleHTTP(x)
 	c02RuleCommit(x)
 	c02RuleEntry(x)
+	r.Note("C02 rules ran in %.2fs after loading", time.Since(t0).Seconds())
 }
 
 // ---------------------------------------------------------------------------
@@ -177,6 +180,14 @@ func c02Incoming(v ssa.Value, at *ssa.BasicBlock) []c02In {
 				continue
 			}
 			out = append(out, c02In{e, c02EdgeFacts(pred, ph.Block()), pred})
+		}
+		return out
+	}
+	if len(at.Preds) > 1 {
+		// a merge block: what is known differs per incoming edge
+		var out []c02In
+		for _, pred := range at.Preds {
+			out = append(out, c02In{v, c02EdgeFacts(pred, at), pred})
 		}
 		return out
 	}
@@ -819,10 +830,15 @@ func c02RuleHTTP(x *c02Ctx) {
 		stor := c02ParamOfType(mk, func(t types.Type) bool { return types.Implements(t, x.recv) })
 		r.Check(stor != nil && c02Origin(as[1]) == ssa.Value(stor), rule, key+"#receive:dst", site, "Receive stores into the storage the handler was created for", "Receive's destination is not the handler's storage parameter")
 		// size guard
-		kSz, _ := c02Fact(facts, func(cond ssa.Value) bool { return false })
-		_ = kSz
 		okSize := false
 		for _, f := range facts {
+			for {
+				u, isNot := f.Cond.(*ssa.UnOp)
+				if !isNot || u.Op != token.NOT {
+					break
+				}
+				f.Cond, f.Val = u.X, !f.Val
+			}
 			bo, ok := f.Cond.(*ssa.BinOp)
 			if !ok {
 				continue
@@ -895,6 +911,9 @@ func c02RuleHTTP(x *c02Ctx) {
 		leaks := LeakingExits(PathQuery{
 			Start: rc,
 			Stop: func(in ssa.Instruction) bool {
+				if in.Block() != rc.Block() && nilAt(in.Block()) {
+					return true // this path went through the err==nil edge
+				}
 				ci, ok := in.(ssa.CallInstruction)
 				return ok && c02IsErrorResponder(CallSite{h, ci})
 			},
@@ -1427,8 +1446,8 @@ func c02RuleCommit(x *c02Ctx) {
 	}
 	r.Check(nrev >= 2, "R-commit", "reverifying-stores#count", "", fmt.Sprintf("%d stores compare the digest themselves and commit only under HashMatches==true", nrev),
 		fmt.Sprintf("only %d stores still re-verify the digest before committing (memory and encrypt are expected)", nrev))
-	r.Floor("R-commit", 45)
-	r.Floor("R-verdict", 25)
+	r.Floor("R-commit", 55)
+	r.Floor("R-verdict", 33)
 }
 
 // checkReceiver applies R-commit/R-verdict to fn with src as the stream.
@@ -2223,7 +2242,7 @@ func c02RuleEntry(x *c02Ctx) {
 		}
 	}
 	r.Analysed("unverified_handover_sites", nsites)
-	r.Floor(rule, 22)
+	r.Floor(rule, 23)
 }
 
 // c02StablePath renders a destination for a construct key without SSA register names.
